@@ -8,7 +8,7 @@
 From Arche Require Import Model.Base Model.Pool Model.Filter Model.World Model.Ops
   Proofs.PoolInv Proofs.Tables Proofs.Bits Proofs.Store Proofs.Graph Proofs.WorldInv Proofs.Atomic
   Proofs.Frame Proofs.StepFrame
-  Proofs.RelGraph Proofs.RelWorld Proofs.RelRefine Proofs.QueryExact Proofs.CacheInv Proofs.ResetInv Proofs.LockHist Proofs.Misc.
+  Proofs.RelGraph Proofs.RelWorld Proofs.RelRefine Proofs.QueryExact Proofs.CacheInv Proofs.ResetInv Proofs.LockHist Proofs.Misc Proofs.GhostBase Proofs.GhostGraph.
 
 (** ** The exchange walk succeeds iff a pure check on the id lists does *)
 Fixpoint wa_ok (reg : list cinfo) (start m : N) (rel : option nat) (ids : list nat) : bool :=
@@ -407,10 +407,10 @@ Proof.
     by destruct (set_relation_rok w (as_live A) e rid tg w' evs (r2_ok _ _ _ K) Hlive H) as (_ & Hp & _).
 Qed.
 
-Theorem step_outcome w A o :
+Lemma step_outcome0 w A o :
   R w A -> det_op A (w_tb w) o ->
-  snd (fst (step w o)) = spec_out A (w_pool w) (w_tb w) o /\
-  w_pool (fst (fst (step w o))) = spec_pool (w_pool w) o (snd (fst (step w o))).
+  snd (fst (step0 w o)) = spec_out A (w_pool w) (w_tb w) o /\
+  w_pool (fst (fst (step0 w o))) = spec_pool (w_pool w) o (snd (fst (step0 w o))).
 Proof.
   intros HR Hd. destruct o; try done; simpl in Hd.
   - destruct (new_outcome w A ids HR Hd) as [H1 H2]. split; [exact H1|]. simpl. simpl in H1. rewrite H1, H2. unfold spec_new.
@@ -438,6 +438,21 @@ Proof.
     unfold register_comp in H. destruct (find_index _ _); [by injection H as <- _|].
     destruct (_ <=? _); [done|]. destruct (is_locked w); [done|]. by destruct (_ && _); injection H as <- _.
 Qed.
+
+Lemma det_op_ghost_ids A tb o : det_op A tb o -> ids_reg A (ghost_ids o).
+Proof. intros H. apply op_pre_ghost_ids. by eapply det_op_pre. Qed.
+
+Theorem step_outcome w A o :
+  R w A -> det_op A (w_tb w) o ->
+  snd (fst (step w o)) = spec_out A (w_pool w) (w_tb w) o /\
+  w_pool (fst (fst (step w o))) = spec_pool (w_pool w) o (snd (fst (step w o))).
+Proof.
+  intros HR Hd. destruct (step_outcome0 w A o HR Hd) as [H1 H2].
+  destruct (step_cases w o) as [[-> _]|[H0 ->]]; [done|]. rewrite H0 in H1, H2. simpl in *. split; [done|].
+  pose proof HR as [[[S G] _ _] Hr _ _]. pose proof (det_op_ghost_ids A _ o Hd) as Hids. unfold ids_reg in Hids. rewrite Hr in Hids.
+  destruct (ghost_of_rok w o G Hids) as [E _]. by rewrite (xr_pool _ _ E).
+Qed.
+
 
 Lemma det_tb w A tb o : det_op A tb o -> w_tb (fst (fst (step w o))) = w_tb w.
 Proof.
